@@ -100,6 +100,7 @@ Proof. unfold nofnat. rs. symmetry. apply INR_IZR_INZ. Qed.
 Lemma v3_eq (a b c d e f : R) : a = d -> b = e -> c = f -> (a, b, c) = (d, e, f).
 Proof. intros -> -> ->. reflexivity. Qed.
 Ltac v3ring := apply v3_eq; rs; try ring.
+Ltac tuple_eq := repeat match goal with |- (_, _) = (_, _) => apply f_equal2 end.
 Ltac dv v := let x := fresh v "x" in let y := fresh v "y" in let z := fresh v "z" in destruct v as [[x y] z].
 
 Definition v3opp (a : V3) : V3 := v3scale Rops (-1) a.
@@ -737,3 +738,254 @@ Section Dedup.
     apply (H []). exact Hnd.
   Qed.
 End Dedup.
+
+(* ------------------------------------------------------------------ minimum image *)
+Lemma min_image1_period L d (n : Z) : 0 < L -> min_image1 Rops L (d + IZR n * L) = min_image1 Rops L d.
+Proof. intros HL. rewrite !min_image1_pdiff. apply pdiff_period. exact HL. Qed.
+Lemma min_image1_range L d : 0 < L -> - L / 2 <= min_image1 Rops L d < L / 2.
+Proof. intros HL. rewrite min_image1_pdiff. apply pdiff_range. exact HL. Qed.
+Lemma min_image1_abs L d : 0 < L -> Rabs (min_image1 Rops L d) <= L / 2.
+Proof. intros HL. pose proof (min_image1_range L d HL) as [H1 H2]. apply Rabs_le. lra. Qed.
+Lemma min_image1_shortest L d (n : Z) : 0 < L -> (min_image1 Rops L d) ^ 2 <= (d - IZR n * L) ^ 2.
+Proof. intros HL. rewrite min_image1_pdiff. apply pdiff_min. exact HL. Qed.
+Lemma min_image1_congruent L d : exists n : Z, min_image1 Rops L d = d - IZR n * L.
+Proof. eexists. reflexivity. Qed.
+
+Definition lattice (cell : V3) (n1 n2 n3 : Z) : V3 :=
+  let '(lx, ly, lz) := cell in (IZR n1 * lx, IZR n2 * ly, IZR n3 * lz).
+Lemma pd_lattice lx ly lz (p1 p2 : V3) n1 n2 n3 m1 m2 m3 : 0 < lx -> 0 < ly -> 0 < lz ->
+  position_distance Rops (Some (lx, ly, lz)) (v3add Rops p1 (lattice (lx, ly, lz) n1 n2 n3))
+                    (v3add Rops p2 (lattice (lx, ly, lz) m1 m2 m3)) =
+  position_distance Rops (Some (lx, ly, lz)) p1 p2.
+Proof.
+  intros Hx Hy Hz. dv p1; dv p2. unfold position_distance, lattice, v3add, v3sub. rs.
+  apply v3_eq.
+  - replace (p2x + IZR m1 * lx - (p1x + IZR n1 * lx)) with (p2x - p1x + IZR (m1 - n1) * lx) by (rewrite minus_IZR; ring).
+    apply min_image1_period; exact Hx.
+  - replace (p2y + IZR m2 * ly - (p1y + IZR n2 * ly)) with (p2y - p1y + IZR (m2 - n2) * ly) by (rewrite minus_IZR; ring).
+    apply min_image1_period; exact Hy.
+  - replace (p2z + IZR m3 * lz - (p1z + IZR n3 * lz)) with (p2z - p1z + IZR (m3 - n3) * lz) by (rewrite minus_IZR; ring).
+    apply min_image1_period; exact Hz.
+Qed.
+Lemma pd_range lx ly lz (p1 p2 : V3) : 0 < lx -> 0 < ly -> 0 < lz ->
+  let '(x, y, z) := position_distance Rops (Some (lx, ly, lz)) p1 p2 in
+  Rabs x <= lx / 2 /\ Rabs y <= ly / 2 /\ Rabs z <= lz / 2.
+Proof.
+  intros Hx Hy Hz. dv p1; dv p2. unfold position_distance, v3sub. rs.
+  repeat split; apply min_image1_abs; assumption.
+Qed.
+
+(* whole groups translated by (different) lattice vectors: COM-based minimum-image components *)
+Section Lattice.
+  Variables (lx ly lz : R).
+  Hypotheses (Hx : 0 < lx) (Hy : 0 < ly) (Hz : 0 < lz).
+  Local Notation cell := (Some (lx, ly, lz)).
+  Local Notation lat := (lattice (lx, ly, lz)).
+  Definition lshift (n : Z * Z * Z) (g : list atomR) : list atomR :=
+    let '(n1, n2, n3) := n in shift_group (lat n1 n2 n3) g.
+  Lemma com_lshift n g : total_mass Rops g <> 0 ->
+    com Rops (lshift n g) = v3add Rops (com Rops g) (let '(n1, n2, n3) := n in lat n1 n2 n3).
+  Proof. destruct n as [[n1 n2] n3]. intros H. unfold lshift. apply com_shift. exact H. Qed.
+  Lemma pdist_lattice (p1 p2 : V3) n m :
+    pdist Rops true cell (v3add Rops p1 (let '(n1, n2, n3) := n in lat n1 n2 n3))
+                         (v3add Rops p2 (let '(m1, m2, m3) := m in lat m1 m2 m3)) = pdist Rops true cell p1 p2.
+  Proof. destruct n as [[n1 n2] n3]. destruct m as [[m1 m2] m3]. unfold pdist. apply pd_lattice; assumption. Qed.
+
+  Lemma lat_distance_vec n m g1 g2 : total_mass Rops g1 <> 0 -> total_mass Rops g2 <> 0 ->
+    cv_distance_vec Rops true cell (lshift n g1) (lshift m g2) = cv_distance_vec Rops true cell g1 g2.
+  Proof. intros H1 H2. unfold cv_distance_vec. rewrite !com_lshift by assumption. apply pdist_lattice. Qed.
+  Lemma lat_distance n m g1 g2 : total_mass Rops g1 <> 0 -> total_mass Rops g2 <> 0 ->
+    cv_distance Rops true cell (lshift n g1) (lshift m g2) = cv_distance Rops true cell g1 g2.
+  Proof. intros H1 H2. unfold cv_distance. rewrite lat_distance_vec by assumption. reflexivity. Qed.
+  Lemma lat_distance_dir n m g1 g2 : total_mass Rops g1 <> 0 -> total_mass Rops g2 <> 0 ->
+    cv_distance_dir Rops true cell (lshift n g1) (lshift m g2) = cv_distance_dir Rops true cell g1 g2.
+  Proof. intros H1 H2. unfold cv_distance_dir. rewrite lat_distance_vec by assumption. reflexivity. Qed.
+  Lemma lat_angle n1 n2 n3 g1 g2 g3 : total_mass Rops g1 <> 0 -> total_mass Rops g2 <> 0 -> total_mass Rops g3 <> 0 ->
+    cv_angle Rops PI true cell (lshift n1 g1) (lshift n2 g2) (lshift n3 g3) = cv_angle Rops PI true cell g1 g2 g3.
+  Proof. intros H1 H2 H3. unfold cv_angle. rewrite !com_lshift by assumption. cbv zeta. rewrite !pdist_lattice. reflexivity. Qed.
+  Lemma lat_dihedral n1 n2 n3 n4 g1 g2 g3 g4 :
+    total_mass Rops g1 <> 0 -> total_mass Rops g2 <> 0 -> total_mass Rops g3 <> 0 -> total_mass Rops g4 <> 0 ->
+    cv_dihedral Rops PI true cell (lshift n1 g1) (lshift n2 g2) (lshift n3 g3) (lshift n4 g4) =
+    cv_dihedral Rops PI true cell g1 g2 g3 g4.
+  Proof.
+    intros H1 H2 H3 H4. unfold cv_dihedral. rewrite !com_lshift by assumption. cbv zeta. rewrite !pdist_lattice. reflexivity.
+  Qed.
+  Lemma switching_lattice r0 r0v en ed tol (p1 p2 : V3) n1 n2 n3 m1 m2 m3 :
+    switching Rops r0 r0v en ed tol cell (v3add Rops p1 (lat n1 n2 n3)) (v3add Rops p2 (lat m1 m2 m3)) =
+    switching Rops r0 r0v en ed tol cell p1 p2.
+  Proof. rewrite !switching_unfold, pd_lattice by assumption. reflexivity. Qed.
+  Lemma lat_coordnum r0 r0v en ed tol n m g1 g2 :
+    cv_coordnum Rops r0 r0v en ed tol cell (lshift n g1) (lshift m g2) = cv_coordnum Rops r0 r0v en ed tol cell g1 g2.
+  Proof.
+    destruct n as [[n1 n2] n3]. destruct m as [[m1 m2] m3].
+    unfold cv_coordnum, lshift. rewrite !pair_sum_eq. unfold shift_group. rewrite rsum_map.
+    apply rsum_ext. intros a1 _. rewrite rsum_map. apply rsum_ext. intros a2 _.
+    cbn [a_pos shift_atom]. apply switching_lattice.
+  Qed.
+  Lemma lat_distance_inv k n m g1 g2 :
+    cv_distance_inv Rops true cell k (lshift n g1) (lshift m g2) = cv_distance_inv Rops true cell k g1 g2.
+  Proof.
+    destruct n as [[n1 n2] n3]. destruct m as [[m1 m2] m3].
+    unfold cv_distance_inv, lshift. rewrite !length_shift, !pair_sum_eq. unfold shift_group. rewrite rsum_map.
+    cbv zeta. f_equal. f_equal. apply rsum_ext. intros a1 _. rewrite rsum_map. apply rsum_ext. intros a2 _.
+    cbn [a_pos shift_atom]. unfold pdist. rewrite pd_lattice by assumption. reflexivity.
+  Qed.
+End Lattice.
+
+(* ------------------------------------------------------------------ quaternions and the optimal rotation *)
+Lemma rotation_matrix_neg (q : Q4) : rotation_matrix Rops (qneg Rops q) = rotation_matrix Rops q.
+Proof.
+  destruct q as [[[q0 q1] q2] q3]. unfold rotation_matrix, qneg. rs.
+  f_equal; [f_equal|]; apply v3_eq; ring.
+Qed.
+Lemma rotate_neg (q : Q4) (v : V3) : rotate Rops (qneg Rops q) v = rotate Rops q v.
+Proof. unfold rotate. rewrite rotation_matrix_neg. reflexivity. Qed.
+
+Definition qnorm2 (q : Q4) : R := qdot Rops q q.
+(* for a unit quaternion the matrix is orthogonal with determinant one *)
+Lemma rotation_matrix_proper (q : Q4) : qnorm2 q = 1 -> proper_rotation (rotation_matrix Rops q).
+Proof.
+  destruct q as [[[q0 q1] q2] q3]. unfold qnorm2, qdot. rs. intros H.
+  assert (H2 : (q0 * q0 + q1 * q1 + q2 * q2 + q3 * q3) * (q0 * q0 + q1 * q1 + q2 * q2 + q3 * q3) = 1) by (rewrite H; ring).
+  split.
+  - unfold orthogonal, rotation_matrix, mmul, mtrans, midentity, v3dot. rs.
+    f_equal; [f_equal|]; apply v3_eq; try (rewrite <- H2; ring);
+      try (replace 0 with (0 * (q0 * q0 + q1 * q1 + q2 * q2 + q3 * q3)) by ring; ring).
+  - unfold det3, rotation_matrix. rs.
+    replace 1 with ((q0 * q0 + q1 * q1 + q2 * q2 + q3 * q3) * ((q0 * q0 + q1 * q1 + q2 * q2 + q3 * q3) * (q0 * q0 + q1 * q1 + q2 * q2 + q3 * q3)))
+      by (rewrite H; ring).
+    ring.
+Qed.
+
+Definition qf_pair (p : V3 * V3) (q : Q4) : R :=
+  quad_form Rops (overlap_matrix Rops (corr_add Rops (vzero Rops, vzero Rops, vzero Rops) p)) q.
+Lemma quad_form_corr_add (C : M3) (p : V3 * V3) (q : Q4) :
+  quad_form Rops (overlap_matrix Rops (corr_add Rops C p)) q = quad_form Rops (overlap_matrix Rops C) q + qf_pair p q.
+Proof.
+  dm C. destruct p as [[[x1 y1] z1] [[x2 y2] z2]]. destruct q as [[[q0 q1] q2] q3].
+  unfold qf_pair, quad_form, mat4_vec, overlap_matrix, corr_add, vzero, qdot. rs. ring.
+Qed.
+Lemma quad_form_corr_matrix (l : list (V3 * V3)) (q : Q4) :
+  quad_form Rops (overlap_matrix Rops (corr_matrix Rops l)) q = rsum (fun p => qf_pair p q) l.
+Proof.
+  unfold corr_matrix.
+  assert (H : forall C, quad_form Rops (overlap_matrix Rops (fold_left (corr_add Rops) l C)) q =
+                        quad_form Rops (overlap_matrix Rops C) q + rsum (fun p => qf_pair p q) l).
+  { induction l as [|p l IH]; intros C; cbn [fold_left rsum]; [lra|]. rewrite IH, quad_form_corr_add. lra. }
+  rewrite H. destruct q as [[[q0 q1] q2] q3]. unfold quad_form, mat4_vec, overlap_matrix, vzero, qdot. rs. ring.
+Qed.
+Lemma sq_dev_pair (x y : V3) (q : Q4) :
+  v3norm2 Rops (v3sub Rops (rotate Rops q x) y) =
+  qnorm2 q * qnorm2 q * v3norm2 Rops x + v3norm2 Rops y - 2 * qf_pair (x, y) q.
+Proof.
+  dv x; dv y. destruct q as [[[q0 q1] q2] q3].
+  unfold qnorm2, qf_pair, quad_form, mat4_vec, overlap_matrix, corr_add, vzero, qdot, rotate, rotation_matrix,
+    mat_vec, v3norm2, v3sub, v3dot. rs. ring.
+Qed.
+(* Coutsias-Seok-Dill: the sum of squared deviations as a quadratic form of the quaternion *)
+Lemma sq_dev_quadratic (q : Q4) (l : list (V3 * V3)) :
+  sq_dev Rops q l = qnorm2 q * qnorm2 q * fst (sq_norms Rops l) + snd (sq_norms Rops l)
+                    - 2 * quad_form Rops (overlap_matrix Rops (corr_matrix Rops l)) q.
+Proof.
+  unfold sq_dev, sq_norms. cbn [fst snd]. rewrite !lsum_eq, quad_form_corr_matrix.
+  induction l as [|[x y] l IH]; cbn [rsum fst snd]; [lra|]. rewrite IH, sq_dev_pair. lra.
+Qed.
+
+(* part (ii): given an orthonormal eigen-decomposition of S (what the Jacobi routine is assumed to return;
+   checked numerically by the tie on every case), the eigenvector of the largest eigenvalue minimises the deviation *)
+Definition qscale (s : R) (q : Q4) : Q4 := let '(a, b, c, d) := q in (s * a, s * b, s * c, s * d).
+Definition outer4 (v : Q4) : (@mat4 R) :=
+  let '(a, b, c, d) := v in (qscale a v, qscale b v, qscale c v, qscale d v).
+Definition qadd (p q : Q4) : Q4 :=
+  let '(a, b, c, d) := p in let '(a', b', c', d') := q in (a + a', b + b', c + c', d + d').
+Definition madd4 (A B : @mat4 R) : @mat4 R :=
+  let '(a0, a1, a2, a3) := A in let '(b0, b1, b2, b3) := B in (qadd a0 b0, qadd a1 b1, qadd a2 b2, qadd a3 b3).
+Definition mscale4 (s : R) (A : @mat4 R) : @mat4 R :=
+  let '(a0, a1, a2, a3) := A in (qscale s a0, qscale s a1, qscale s a2, qscale s a3).
+Definition identity4 : @mat4 R := ((1, 0, 0, 0), (0, 1, 0, 0), (0, 0, 1, 0), (0, 0, 0, 1)).
+
+Lemma quad_form_outer4 (v q : Q4) : quad_form Rops (outer4 v) q = qdot Rops v q * qdot Rops v q.
+Proof.
+  destruct v as [[[a b] c] d]. destruct q as [[[q0 q1] q2] q3].
+  unfold quad_form, mat4_vec, outer4, qscale, qdot. rs. ring.
+Qed.
+Lemma quad_form_madd4 (A B : @mat4 R) (q : Q4) : quad_form Rops (madd4 A B) q = quad_form Rops A q + quad_form Rops B q.
+Proof.
+  destruct A as [[[[[[a00 a01] a02] a03] [[[a10 a11] a12] a13]] [[[a20 a21] a22] a23]] [[[a30 a31] a32] a33]].
+  destruct B as [[[[[[b00 b01] b02] b03] [[[b10 b11] b12] b13]] [[[b20 b21] b22] b23]] [[[b30 b31] b32] b33]].
+  destruct q as [[[q0 q1] q2] q3]. unfold quad_form, mat4_vec, madd4, qadd, qdot. rs. ring.
+Qed.
+Lemma quad_form_mscale4 s (A : @mat4 R) (q : Q4) : quad_form Rops (mscale4 s A) q = s * quad_form Rops A q.
+Proof.
+  destruct A as [[[[[[a00 a01] a02] a03] [[[a10 a11] a12] a13]] [[[a20 a21] a22] a23]] [[[a30 a31] a32] a33]].
+  destruct q as [[[q0 q1] q2] q3]. unfold quad_form, mat4_vec, mscale4, qscale, qdot. rs. ring.
+Qed.
+Lemma quad_form_identity4 (q : Q4) : quad_form Rops identity4 q = qnorm2 q.
+Proof. destruct q as [[[q0 q1] q2] q3]. unfold quad_form, mat4_vec, identity4, qnorm2, qdot. rs. ring. Qed.
+
+Section OptimalRotation.
+  Variable l : list (V3 * V3).
+  Variables (v0 v1 v2 v3 : Q4) (e0 e1 e2 e3 : R).
+  Let S := overlap_matrix Rops (corr_matrix Rops l).
+  (* S = V diag(e) V^T,  V V^T = I,  v0 is a unit vector orthogonal to the others, e0 is the largest eigenvalue *)
+  Hypothesis Hdecomp : S = madd4 (madd4 (mscale4 e0 (outer4 v0)) (mscale4 e1 (outer4 v1)))
+                                 (madd4 (mscale4 e2 (outer4 v2)) (mscale4 e3 (outer4 v3))).
+  Hypothesis Hcomplete : madd4 (madd4 (outer4 v0) (outer4 v1)) (madd4 (outer4 v2) (outer4 v3)) = identity4.
+  Hypothesis Hunit0 : qnorm2 v0 = 1.
+  Hypothesis Horth : qdot Rops v1 v0 = 0 /\ qdot Rops v2 v0 = 0 /\ qdot Rops v3 v0 = 0.
+  Hypothesis Hmax : e1 <= e0 /\ e2 <= e0 /\ e3 <= e0.
+
+  Lemma quad_form_spectral (q : Q4) :
+    quad_form Rops S q = e0 * (qdot Rops v0 q * qdot Rops v0 q) + e1 * (qdot Rops v1 q * qdot Rops v1 q)
+                         + e2 * (qdot Rops v2 q * qdot Rops v2 q) + e3 * (qdot Rops v3 q * qdot Rops v3 q).
+  Proof. rewrite Hdecomp, !quad_form_madd4, !quad_form_mscale4, !quad_form_outer4. ring. Qed.
+  Lemma parseval (q : Q4) :
+    qdot Rops v0 q * qdot Rops v0 q + qdot Rops v1 q * qdot Rops v1 q + qdot Rops v2 q * qdot Rops v2 q
+    + qdot Rops v3 q * qdot Rops v3 q = qnorm2 q.
+  Proof. rewrite <- quad_form_identity4, <- Hcomplete, !quad_form_madd4, !quad_form_outer4. ring. Qed.
+  Lemma quad_form_le_max (q : Q4) : quad_form Rops S q <= e0 * qnorm2 q.
+  Proof.
+    rewrite quad_form_spectral, <- parseval. destruct Hmax as (H1 & H2 & H3).
+    set (c0 := qdot Rops v0 q * qdot Rops v0 q). set (c1 := qdot Rops v1 q * qdot Rops v1 q).
+    set (c2 := qdot Rops v2 q * qdot Rops v2 q). set (c3 := qdot Rops v3 q * qdot Rops v3 q).
+    assert (0 <= c1) by (unfold c1; nra). assert (0 <= c2) by (unfold c2; nra). assert (0 <= c3) by (unfold c3; nra).
+    nra.
+  Qed.
+  Lemma quad_form_top : quad_form Rops S v0 = e0.
+  Proof.
+    rewrite quad_form_spectral. destruct Horth as (H1 & H2 & H3). rewrite H1, H2, H3.
+    unfold qnorm2 in Hunit0. rewrite Hunit0. ring.
+  Qed.
+  Lemma optimal_rotation_minimises (q : Q4) : qnorm2 q = 1 -> sq_dev Rops v0 l <= sq_dev Rops q l.
+  Proof.
+    intros Hq. rewrite !sq_dev_quadratic, Hunit0, Hq. fold S. rewrite quad_form_top.
+    pose proof (quad_form_le_max q) as H. rewrite Hq in H. lra.
+  Qed.
+End OptimalRotation.
+
+(* ------------------------------------------------------------------ integer powers and the polynomial combination *)
+Lemma ipow_pos_spec (x : R) p : ipow_pos Rops x p = x ^ Pos.to_nat p.
+Proof.
+  revert x. induction p as [p IH|p IH|]; intros x; cbn [ipow_pos]; rs.
+  - rewrite IH, Pos2Nat.inj_xI. cbn [pow]. rewrite pow_mult. cbn [pow]. rewrite Rmult_1_r. reflexivity.
+  - rewrite IH, Pos2Nat.inj_xO. rewrite pow_mult. cbn [pow]. rewrite Rmult_1_r. reflexivity.
+  - rewrite Pos2Nat.inj_1. cbn [pow]. ring.
+Qed.
+Lemma ipow_spec (x : R) (n : Z) : x <> 0 -> ipow Rops x n = powerRZ x n.
+Proof.
+  intros Hx. unfold ipow. rs. unfold Reqb'. destruct (Req_EM_T x 0) as [E|_]; [contradiction|].
+  destruct n as [|p|p]; cbn [powerRZ]; rewrite ?ipow_pos_spec; rs; [reflexivity|reflexivity|].
+  unfold Rdiv. ring.
+Qed.
+Lemma ipow_zero (n : Z) : ipow Rops 0 n = if Z.eqb n 0 then 1 else 0.
+Proof. unfold ipow. rs. unfold Reqb'. destruct (Req_EM_T 0 0) as [_|E]; [reflexivity|congruence]. Qed.
+Definition term_value (t : R * Z * R) : R :=
+  let '(c, n, q) := t in c * (if Z.eqb n 1 then q else ipow Rops q n).
+Lemma cv_combine_sum (l : list (R * Z * R)) : cv_combine Rops l = rsum term_value l.
+Proof.
+  unfold cv_combine.
+  assert (H : forall acc, fold_left (fun s t => let '(c, n, q) := t in
+                nadd Rops s (nmul Rops c (if Z.eqb n 1 then q else ipow Rops q n))) l acc = acc + rsum term_value l).
+  { induction l as [|[[c n] q] l IH]; intros acc; cbn [fold_left rsum]; [lra|]. rewrite IH. unfold term_value. rs. lra. }
+  rewrite H. rs. lra.
+Qed.
